@@ -2,7 +2,7 @@
    Property theorems only; the model is theories/Limits.v (the definitions the correspondence runs
    execute), the proofs are in theories/Limits_proofs.v.  All statements quantify over arbitrary
    event streams (any length, any JSON-like events, malformed ones included), arbitrary limit
-   tuples and filter lists, and an arbitrary regex engine [re]. *)
+   tuples and filter lists, an arbitrary regex engine [re] and an arbitrary str() function [st]. *)
 From Coq Require Import ZArith QArith List Bool String Ascii.
 Import ListNotations.
 From AiuModel Require Import Base Limits Limits_proofs.
@@ -35,10 +35,10 @@ Print Assumptions C17_position_rule.
 (* (3) metadata (any exempt type that is not a slice) is never dropped and never altered, whatever
    the limits, the filters and the rest of the stream ... *)
 Theorem C17_metadata_never_dropped :
-  forall (re : string -> string -> bool) (c : limcfg) (fs : list (string * string)) (jm : list (Z * string))
+  forall (re : string -> string -> bool) (st : json -> string) (c : limcfg) (fs : list (string * string)) (jm : list (Z * string))
          (es : list event) (i : nat) (e : event),
     nth_error es i = Some e -> ignored c e = true -> is_X e = false ->
-    nth_error (run_stream re c fs jm 0 es) i = Some (Ok [e]).
+    nth_error (run_stream re st c fs jm 0 es) i = Some (Ok [e]).
 Proof. exact ignored_kept. Qed.
 Print Assumptions C17_metadata_never_dropped.
 
@@ -54,53 +54,67 @@ Print Assumptions C17_metadata_transparent.
 (* (4) normalize_phase1 over a stream = limiter verdict, then (for X only) normalise, filter, finish;
    the counter never depends on filters, on regex results or on exceptions of later steps. *)
 Theorem C17_phase1_decomposition :
-  forall (re : string -> string -> bool) (c : limcfg) (fs : list (string * string)) (jm : list (Z * string))
+  forall (re : string -> string -> bool) (st : json -> string) (c : limcfg) (fs : list (string * string)) (jm : list (Z * string))
          (es : list event) (i : nat) (e : event),
     nth_error es i = Some e ->
-    nth_error (run_stream re c fs jm 0 es) i
-    = Some (decide re fs jm (snd (limiter c (cntd c (firstn i es)) e)) e).
+    nth_error (run_stream re st c fs jm 0 es) i
+    = Some (decide re st fs jm (snd (limiter c (cntd c (firstn i es)) e)) e).
 Proof. exact run_stream_nth. Qed.
 Print Assumptions C17_phase1_decomposition.
 
-(* (5) the filter: on its claimed domain (every attribute path stays inside dicts and reaches a dict
-   or a str/int/bool/None leaf) an event is filtered iff some attr:regex pair resolves through dicts
-   to a non-dict leaf whose str() the regex finds a match in. *)
+(* (5) the filter, for EVERY event and EVERY filter list (no domain hypothesis; [event_filtered] is a total boolean
+   function - the repaired code raises nothing): an event is filtered iff for some attr:regex pair the event has the
+   named attribute ([resolves]: every component of the dotted path is a key of the dict reached so far - in particular
+   nothing resolves below a string or a number), the attribute's value is not a dict, and the regex finds a match in
+   its str().  Until /repo fix "C17d" a path that left the dicts was matched against the last value reached
+   ('args.Type.x:^T1$' dropped every slice whose args.Type is "T1") or raised TypeError. *)
 Theorem C17_filter_spec :
-  forall (re : string -> string -> bool) (fs : list (string * string)) (e : event),
-    forallb (filter_dom e) fs = true ->
-    exists b, event_filtered re fs e = Ok b /\
-      (b = true <-> exists ar, In ar fs /\ pair_matches re e ar).
+  forall (re : string -> string -> bool) (st : json -> string) (fs : list (string * string)) (e : event),
+    event_filtered re st fs e = true <-> exists ar, In ar fs /\ pair_matches re st e ar.
 Proof. exact filter_spec. Qed.
 Print Assumptions C17_filter_spec.
 
-(* (5b) ... and every comma separated attribute:regex entry of the --event_filter string IS one of these pairs, also
+(* (5b) ... and every comma separated entry of the --event_filter string that contains a colon IS one of these pairs:
+   attribute = the text before its FIRST colon, regex = everything after it, colons included ("name:aten::add"), also
    when several entries name the same attribute.  Until /repo fix "C17b" the filters were kept in a dict keyed by
-   attribute: 'name:alpha,name:beta' silently became 'name:beta' (corpus/C17/09_repeated_key: expectation corrected). *)
+   attribute ('name:alpha,name:beta' silently became 'name:beta'); until /repo fix "C17c" an entry with two or more
+   colons was discarded whole. *)
 Theorem C17_every_entry_counts :
   forall (s f k r : string),
-    all_space s = false -> In f (split_on ","%char s) -> split_on ":"%char f = [k; r] ->
+    all_space s = false -> In f (split_on ","%char s) -> has_char ":"%char k = false -> f = k ++ String ":"%char r ->
     In (k, r) (extract_filters s).
 Proof. exact extract_every_entry. Qed.
 Print Assumptions C17_every_entry_counts.
 
+(* (5c) ... and nothing else is a filter: every pair in force is such an entry (an entry without a colon contributes
+   nothing, a blank string contributes nothing). *)
+Theorem C17_no_other_entry :
+  forall (s k r : string),
+    In (k, r) (extract_filters s) ->
+    all_space s = false /\ has_char ":"%char k = false /\ In (k ++ String ":"%char r) (split_on ","%char s).
+Proof. exact extract_only_entries. Qed.
+Print Assumptions C17_no_other_entry.
+
 (* (6) a slice the limiter lets through is dropped iff a filter matches its normalised form (attr
    merged into args, hex counters decimal, Receive/RDMA unified, Bytes renamed); every other slice
-   is exported ([finish] only adds args.jobname). *)
+   is exported ([finish] only adds args.jobname).  No hypothesis on the filters or on the shape of the event beyond
+   "the normalisations did not raise". *)
 Theorem C17_filter_keeps_others :
-  forall (re : string -> string -> bool) (fs : list (string * string)) (jm : list (Z * string)) (e e1 : event),
-    xform e = Ok e1 -> forallb (filter_dom e1) fs = true ->
-    (post re fs jm e = Ok [] <-> exists ar, In ar fs /\ pair_matches re e1 ar) /\
-    ((~ exists ar, In ar fs /\ pair_matches re e1 ar) -> post re fs jm e = finish jm e1).
+  forall (re : string -> string -> bool) (st : json -> string) (fs : list (string * string)) (jm : list (Z * string))
+         (e e1 : event),
+    xform e = Ok e1 ->
+    (post re st fs jm e = Ok [] <-> exists ar, In ar fs /\ pair_matches re st e1 ar) /\
+    ((~ exists ar, In ar fs /\ pair_matches re st e1 ar) -> post re st fs jm e = finish jm e1).
 Proof. exact filter_keeps_others. Qed.
 Print Assumptions C17_filter_keeps_others.
 
 (* (7) enlarging count never removes a previously exported event (and exports it identically). *)
 Theorem C17_monotone_count :
-  forall (re : string -> string -> bool) (c c2 : limcfg) (fs : list (string * string)) (jm : list (Z * string))
+  forall (re : string -> string -> bool) (st : json -> string) (c c2 : limcfg) (fs : list (string * string)) (jm : list (Z * string))
          (es : list event) (i : nat) (x : event),
     same_but_count c c2 -> count_of c <= count_of c2 ->
-    nth_error (run_stream re c fs jm 0 es) i = Some (Ok [x]) ->
-    nth_error (run_stream re c2 fs jm 0 es) i = Some (Ok [x]).
+    nth_error (run_stream re st c fs jm 0 es) i = Some (Ok [x]) ->
+    nth_error (run_stream re st c2 fs jm 0 es) i = Some (Ok [x]).
 Proof. exact monotone_count. Qed.
 Print Assumptions C17_monotone_count.
 
@@ -109,11 +123,11 @@ Print Assumptions C17_monotone_count.
    hypothesis because positions only grow.  Without the proviso the statement contradicts the
    position rule itself: see C17_window_not_monotone_when_binding. *)
 Theorem C17_monotone_window :
-  forall (re : string -> string -> bool) (c c2 : limcfg) (fs : list (string * string)) (jm : list (Z * string))
+  forall (re : string -> string -> bool) (st : json -> string) (c c2 : limcfg) (fs : list (string * string)) (jm : list (Z * string))
          (es : list event) (i : nat) (x : event),
     wider c c2 -> cntd c2 es <= limit_of c ->
-    nth_error (run_stream re c fs jm 0 es) i = Some (Ok [x]) ->
-    nth_error (run_stream re c2 fs jm 0 es) i = Some (Ok [x]).
+    nth_error (run_stream re st c fs jm 0 es) i = Some (Ok [x]) ->
+    nth_error (run_stream re st c2 fs jm 0 es) i = Some (Ok [x]).
 Proof. exact monotone_window. Qed.
 Print Assumptions C17_monotone_window.
 
@@ -143,14 +157,15 @@ Example C17_nonvacuous_position :
   lim_stream c 0 es = [Ok false; Ok true; Ok false; Ok true; Ok false; Ok true; Ok false].
 Proof. split; [|split]; vm_compute; reflexivity. Qed.
 
-(* the filter's hypotheses are met and it discriminates: regex engine = "subject equals pattern" *)
+(* the filter discriminates: regex engine = "subject equals pattern"; a regex with colons is an ordinary regex *)
 Example C17_nonvacuous_filter :
   let re := fun p s : string => String.eqb p s in
-  let fs := extract_filters "args.nested.k:v1,args.Type:T1,args.missing:x,nocolon" in
-  fs = [("args.nested.k", "v1"); ("args.Type", "T1"); ("args.missing", "x")] /\
-  forallb (filter_dom (X_ 0 1 2 "n" "T0")) fs = true /\
-  event_filtered re fs (X_ 0 1 2 "n" "T0") = Ok true /\
-  event_filtered re [("args.Type", "T1"); ("args.missing", "x"); ("args", "x")] (X_ 0 1 2 "n" "T0") = Ok false.
+  let fs := extract_filters "args.nested.k:v1,args.Type:T1,args.missing:x,nocolon,name:aten::add,a:b:c" in
+  fs = [("args.nested.k", "v1"); ("args.Type", "T1"); ("args.missing", "x"); ("name", "aten::add"); ("a", "b:c")] /\
+  event_filtered re tie_str fs (X_ 0 1 2 "n" "T0") = true /\
+  event_filtered re tie_str [("args.Type", "T1"); ("args.missing", "x"); ("args", "x"); ("name", "aten::add"); ("a", "b:c")]
+                 (X_ 0 1 2 "n" "T0") = false /\
+  event_filtered re tie_str [("name", "aten::add")] (X_ 0 1 2 "aten::add" "T0") = true.
 Proof. repeat split; vm_compute; reflexivity. Qed.
 
 (* with a binding count bound a wider window does remove a previously kept slice: count 1,
@@ -166,11 +181,15 @@ Proof.
   repeat split; vm_compute; discriminate.
 Qed.
 
-(* quirk of the code kept by the model, outside [filter_dom]: an attribute path that continues below
-   a string leaf is applied to that leaf (args.Type.x filters on args.Type) *)
-Example C17_partial_path_quirk :
+(* an attribute path that continues below a string or a number names an attribute the event does not have: such an
+   entry never matches (and never raises), whatever the value reached on the way is *)
+Example C17_path_below_scalar_never_matches :
   let re := fun p s : string => String.eqb p s in
-  filter_dom (X_ 0 1 2 "n" "T1") ("args.Type.x", "T1") = false /\
-  event_filtered re [("args.Type.x", "T1")] (X_ 0 1 2 "n" "T1") = Ok true /\
-  event_filtered re [("args.Type.T", "T1")] (X_ 0 1 2 "n" "T1") = Err "TypeError".
-Proof. repeat split; vm_compute; reflexivity. Qed.
+  event_filtered re tie_str [("args.Type.x", "T1"); ("args.Type.T", "T1"); ("pid.x", "0"); ("args.uid.0", "0"); ("name.", "n")]
+                 (X_ 0 1 2 "n" "T1") = false /\
+  event_filtered re tie_str [("args.Type.x", "T1"); ("args.Type", "T1")] (X_ 0 1 2 "n" "T1") = true /\
+  ~ pair_matches re tie_str (X_ 0 1 2 "n" "T1") ("args.Type.x", "T1").
+Proof.
+  split; [vm_compute; reflexivity|]. split; [vm_compute; reflexivity|].
+  intros H. apply (one_filter_spec (fun p s : string => String.eqb p s) tie_str) in H. vm_compute in H. discriminate.
+Qed.
